@@ -137,6 +137,7 @@ type op struct {
 	Styp      bool        `json:"styp,omitempty"`
 	Piecewise bool        `json:"piecewise,omitempty"`
 	Multi     bool        `json:"multi,omitempty"`
+	LargeMdat bool        `json:"largeMdat,omitempty"` // fragment: Mdat.LargeSize = true (64-bit size header, legal for any payload)
 	Mode      string      `json:"mode,omitempty"`
 	Tracks    []int       `json:"tracks,omitempty"`
 	Track     int         `json:"track,omitempty"`
@@ -381,6 +382,9 @@ func interpret(c *historyCase, st *stats) (*built, *harness.Fail) {
 				return nil, harness.Failf("C05|CreateFragment|error", "%s: %v", where, err)
 			}
 			seq++
+			if o.LargeMdat {
+				cf.frag.Mdat.LargeSize = true
+			}
 			cs.seg.AddFragment(cf.frag)
 			cs.frags = append(cs.frags, cf)
 			if o.Mode == "meta" {
@@ -904,8 +908,11 @@ func checkEncoded(c *historyCase, b *built, file []byte, nFrags int) *harness.Fa
 			if m.Mdat == nil {
 				return harness.Failf("C05|encoded bytes (independent reader)|moof without mdat", "%s", what)
 			}
-			// 8-byte mdat header is the only one the API can produce below 4 GiB
+			// 8-byte mdat header unless the fragment was given Mdat.LargeSize (header with the 64-bit size field)
 			pos := m.Mdat.Offset + 8
+			if int(m.Mdat.Offset)+4 <= len(file) && file[m.Mdat.Offset] == 0 && file[m.Mdat.Offset+1] == 0 && file[m.Mdat.Offset+2] == 0 && file[m.Mdat.Offset+3] == 1 {
+				pos = m.Mdat.Offset + 16
+			}
 			var order []int
 			for _, r := range runs {
 				if r.size > 0 && r.start != pos {
@@ -1080,6 +1087,7 @@ func genCase(t *rapid.T) historyCase {
 		nFrag := rapid.SampledFrom([]int{1, 1, 2, 3}).Draw(t, "nfrag")
 		for fi := 0; fi < nFrag; fi++ {
 			fo := op{Kind: "fragment"}
+			fo.LargeMdat = rapid.IntRange(0, 5).Draw(t, "largeMdat") == 0
 			if nt > 1 {
 				fo.Multi = rapid.IntRange(0, 3).Draw(t, "multi") != 0
 			} else {
@@ -1298,6 +1306,7 @@ func classify(c *historyCase) (nontrivial bool, classes []string) {
 			closeFrag()
 			nFragInSeg++
 			fs = &fragState{multi: o.Multi, tracks: o.Tracks, per: map[int]int{}, nRuns: map[int]int{}, lastTi: -1}
+			add(o.LargeMdat, "fragment-mdat-64bit-header")
 			add(o.Multi, "fragment-multi-track")
 			add(!o.Multi, "fragment-single-track")
 			add(o.Multi && len(o.Tracks) == 1, "fragment-multi-track-API-one-track")
